@@ -123,7 +123,7 @@ for _pid, _only, _must in [
     ('C05', r'LIFECYCLE|LAUNCH-TWICE|RESTART-NO-LAUNCH|STALE-INSTANCE|PANIC|FATAL', ['ev:restarted', 'ev:zombie', 'ev:spawn-err:prelaunch']),
     ('C06', r'KILL-ONCE|CHILDREN-FIRST|NOT-RELEASED|HALF-STOPPED|JOB-SURVIVES-OWNER|PANIC|FATAL', ['ev:killed-event', 'ev:spawn-err:exists', 'ev:spawn-err:dead', 'killvs:kill-first', 'killvs:directive-first', 'killvs:dec1:kill-first', 'killvs:dec1:directive-first', 'killvs:dec2:directive-first']),
     ('C08', r'DECIDE-TWICE|SUPERVISION-WHILE-STOPPING|STAYS-PAUSED|HALF-STOPPED|STALE-INSTANCE|PANIC|FATAL', ['stash:dec1:hooks1', 'stash:dec2:hooks1', 'ev:decide:1', 'ev:decide:2', 'ev:decide:3', 'ev:decide:4', 'ev:decide:5', 'ev:decide:6', 'matrix:', 'escal:kindM1:depth1', 'escal:kindM2:depth1', 'escal:kindM2:depth2']),
-    ('C09', r'STAYS-PAUSED|HALF-STOPPED|NO-ANSWER|ZOMBIE-RUNS-USER-CODE|ZOMBIE-PAUSED|PANIC|FATAL', ['ev:restarted', 'ev:zombie', 'ev:decide:5', 'ev:decide:2', 'ev:decide:4', 'escal:kindM1:depth1', 'escal:kindM2:depth1', 'escal:kindM2:depth2', 'escal:dec5', 'escal:dec4', 'escal:dec2', 'killvs:kill-first', 'killvs:directive-first', 'killvs:dec1:kill-first', 'killvs:dec1:directive-first', 'killvs:dec2:directive-first', 'stash:dec1:hooks8', 'stash:dec1:hooks32', 'stopping-supervisor:dec6:poison1', 'stopping-supervisor:dec1:poison1', 'stopping-supervisor:dec6:poison0', 'zombie-sibling:dec1', 'zombie-sibling:dec3', 'zombie-sibling:dec5', 'zombie-sibling:dec6']),
+    ('C09', r'STAYS-PAUSED|HALF-STOPPED|NO-ANSWER|ZOMBIE-RUNS-USER-CODE|ZOMBIE-PAUSED|PANIC|FATAL', ['ev:restarted', 'ev:zombie', 'ev:decide:5', 'ev:decide:2', 'ev:decide:4', 'escal:kindM1:depth1', 'escal:kindM2:depth1', 'escal:kindM2:depth2', 'escal:dec5', 'escal:dec4', 'escal:dec2', 'escal:dec7', 'escal:dec0', 'stash:dec7:hooks0', 'killvs:kill-first', 'killvs:directive-first', 'killvs:dec1:kill-first', 'killvs:dec1:directive-first', 'killvs:dec2:directive-first', 'stash:dec1:hooks8', 'stash:dec1:hooks32', 'stopping-supervisor:dec6:poison1', 'stopping-supervisor:dec1:poison1', 'stopping-supervisor:dec6:poison0', 'zombie-sibling:dec1', 'zombie-sibling:dec3', 'zombie-sibling:dec5', 'zombie-sibling:dec6']),
     ('C19', r'ES-TABLES|EVENT-TWICE|EVENT-NOT-SUBSCRIBED|EVENT-MISSED|PANIC|FATAL', ['ev:es-sub', 'ev:es-unsub', 'ev:es-unsuball', 'ev:es-pub-with-subscribers']),
 ]:
     PROPS[_pid] = dict(
